@@ -57,6 +57,11 @@ pub struct BCase {
     pub capacity: u64,
     pub policy: Serve,
     pub ops: Vec<BOp>,
+    /// afterwards: this many rounds of (device completes the oldest request, driver completes it,
+    /// a new non-blocking request is submitted) with two requests in flight all the time -- more
+    /// than 65536 rounds take the queue's free-running indices through their wrap
+    #[serde(default)]
+    pub repeat: u32,
 }
 
 #[derive(Clone, Debug)]
@@ -311,7 +316,16 @@ impl WithT for Run<'_> {
                 _ => 1,
             }
         };
-        for (i, op) in c.ops.iter().enumerate() {
+        let mut all_ops: Vec<BOp> = c.ops.clone();
+        if c.repeat > 0 {
+            all_ops.push(BOp::NbRead { s: Sect::In(1), n: 1 });
+            all_ops.push(BOp::NbWrite { s: Sect::In(2), n: 1, seed: 3 });
+            for r in 0..c.repeat {
+                all_ops.push(BOp::Complete { pick: 0 });
+                all_ops.push(if r % 3 == 0 { BOp::NbWrite { s: Sect::In((r % 60) as u8), n: 1, seed: r as u8 } } else { BOp::NbRead { s: Sect::In((r % 61) as u8), n: 1 } });
+            }
+        }
+        for (i, op) in all_ops.iter().enumerate() {
             let what = format!("op #{} {:?}", i, op);
             world::with(|w| w.spins = 0);
             match op {
@@ -609,7 +623,7 @@ fn op() -> impl Strategy<Value = BOp> {
 
 pub fn strategy() -> impl Strategy<Value = BCase> {
     (drv::tk_strategy(), drv::feature_strategy(&[F_RO, F_FLUSH]), prop_oneof![Just(DISK_SECTORS), any::<u64>()], drv::serve_strategy(), prop::collection::vec(op(), 0..50))
-        .prop_map(|(kind, offered, capacity, policy, ops)| BCase { kind, offered: offered | if kind.legacy() { 0 } else { offered & F_VERSION_1 }, capacity, policy, ops })
+        .prop_map(|(kind, offered, capacity, policy, ops)| BCase { kind, offered: offered | if kind.legacy() { 0 } else { offered & F_VERSION_1 }, capacity, policy, ops, repeat: 0 })
 }
 
 pub fn replay(e: &str, case: &serde_json::Value) -> Result<(), String> {
@@ -630,6 +644,22 @@ pub fn run(ctx: &Ctx) -> Report {
         r
     });
     if failure.is_none() {
+        // more than 65536 requests with two in flight all the time (index wrap while pipelined)
+        let items: Vec<BCase> = [(TK::Model, 1u64 << 32), (TK::MmioModern, 1 << 32 | 1 << 28), (TK::Model, 1 << 32 | 1 << 29)]
+            .into_iter()
+            .map(|(kind, offered)| BCase { kind, offered, capacity: 64, policy: Serve::OnNotify, ops: vec![], repeat: 66_000 })
+            .collect();
+        let (st, f) = crate::runner::run_items(ctx, "blk", items, |c: &BCase, st| {
+            let r = check(c, st);
+            if r.is_ok() {
+                st.class("pipelined_run_of_more_than_65536_requests");
+            }
+            r
+        });
+        stats.merge(st);
+        failure = f;
+    }
+    if failure.is_none() {
         let (st, f) = run_proptest(ctx, "blk", 141, ctx.n(300_000, 12_000_000), strategy, |c: &BCase, st| check(c, st));
         stats.merge(st);
         failure = f;
@@ -639,7 +669,7 @@ pub fn run(ctx: &Ctx) -> Report {
         failure,
         info: PartInfo {
             level: "exploration",
-            rule: "proptest histories over read_blocks/write_blocks (1..8 sectors), flush, device_id, read_blocks_nb/write_blocks_nb/peek_used/complete_* with up to a queue-full outstanding and device-chosen completion order; sectors inside, at the edge of and far beyond a 64-sector reference disk; injected statuses 0/1/2/3/other; features +-RO +-FLUSH +-INDIRECT +-EVENT_IDX +-VERSION_1; on the model transport, real MMIO (legacy/modern) and real PCI; device servicing policies OnNotify/Poll/Late. The reference block device parses every chain against virtio-blk 5.2 (header, data direction and size, 1-byte status), a model disk is compared with the device disk at the end. capacity() is also read while the device changes its configuration before every single configuration access and every pair of accesses of the constructor (must equal one exposed value). Non-trivial = >=2 outstanding non-blocking requests completed out of order, or a non-OK status; distinct = (transport, accepted features, op kinds/sizes/outcomes).",
+            rule: "proptest histories over read_blocks/write_blocks (1..8 sectors), flush, device_id, read_blocks_nb/write_blocks_nb/peek_used/complete_* with up to a queue-full outstanding and device-chosen completion order; sectors inside, at the edge of and far beyond a 64-sector reference disk; injected statuses 0/1/2/3/other; features +-RO +-FLUSH +-INDIRECT +-EVENT_IDX +-VERSION_1; on the model transport, real MMIO (legacy/modern) and real PCI; device servicing policies OnNotify/Poll/Late. The reference block device parses every chain against virtio-blk 5.2 (header, data direction and size, 1-byte status), a model disk is compared with the device disk at the end; plus deterministic runs of > 65536 non-blocking requests with two in flight all the time (index wrap while pipelined). capacity() is also read while the device changes its configuration before every single configuration access and every pair of accesses of the constructor (must equal one exposed value). Non-trivial = >=2 outstanding non-blocking requests completed out of order, or a non-OK status; distinct = (transport, accepted features, op kinds/sizes/outcomes).",
             assumptions: vec!["blocking calls are generated only while nothing non-blocking is outstanding (documented precondition of add_notify_wait_pop)".into()],
             exhaustive: false,
             extra: json!({}),
